@@ -52,8 +52,8 @@ states, each with its own γ -/
 theorem riemann_setup (q : Prob) :
     RiemSetup.al (toSetup q) = sound q.pl q.rl q.gl ∧ RiemSetup.ar (toSetup q) = sound q.pr q.rr q.gr ∧
     RiemSetup.el (toSetup q) = sie q.pl q.rl q.gl ∧ RiemSetup.er (toSetup q) = sie q.pr q.rr q.gr := by
-  simp only [sound_eq, sie_eq, toSetup, epv_tree, epv_leaf]
-  split_ifs <;> exact ⟨rfl, rfl, rfl, rfl⟩
+  refine ⟨?_, ?_, ?_, ?_⟩ <;> simp only [epv_tree] <;> split_ifs <;>
+    simp only [sound_eq, sie_eq, toSetup, epv_leaf]
 
 /-! ### every region of the assembled solution -/
 
@@ -94,7 +94,7 @@ theorem solve_sie (q : Prob) (pat : RiemannIG.Pattern) (px xd0 x t : ℝ) :
   cases pat <;>
     simp only [r, RiemannIG.solveWith, RiemannIG.vregs, RiemannIG.regStates, RiemannIG.xregs, RiemannIG.assemble,
       List.map, regGamma, d1, d2, d3, d4, d5, d6, d7, d8] <;>
-    split_ifs <;> simp_all
+    (try split_ifs) <;> simp_all
 
 /-- C03 for the ideal-gas Riemann solution: at every point, in every region of every pattern,
 p = (γ_side - 1) ρ e  (the code divides by ρ and γ-1, so these must not vanish) -/
@@ -111,5 +111,111 @@ theorem solve_eos (q : Prob) (pat : RiemannIG.Pattern) (px xd0 x t : ℝ) (hgl :
 
 /-- non-vacuity at the solver defaults -/
 example : sod.gl - 1 ≠ 0 ∧ sod.gr - 1 ≠ 0 := by unfold sod; norm_num
+
+/-! ### JWL closure functions -/
+
+/-- the constants of a JWL problem with the material γ -/
+structure Jwl where
+  A : ℝ
+  B : ℝ
+  R1 : ℝ
+  R2 : ℝ
+  r0 : ℝ
+  g : ℝ
+
+/-- the constants for which the code's divisions are defined -/
+def Jwl.Regular (c : Jwl) : Prop := c.R1 * c.r0 ≠ 0 ∧ c.R2 * c.r0 ≠ 0 ∧ c.g - 1 ≠ 0
+
+noncomputable def jwlF (c : Jwl) (ρ : ℝ) : ℝ :=
+  RiemJwlFun.f { A := c.A, B := c.B, R1 := c.R1, R2 := c.R2, r0 := c.r0, gk := c.g } ρ
+noncomputable def jwlDf (c : Jwl) (ρ : ℝ) : ℝ :=
+  RiemJwlDfun.df { A := c.A, B := c.B, R1 := c.R1, R2 := c.R2, r0 := c.r0, gk := c.g } ρ
+noncomputable def jwlSie (c : Jwl) (p ρ : ℝ) : ℝ :=
+  RiemSieJWL.e { A := c.A, B := c.B, R1 := c.R1, R2 := c.R2, r0 := c.r0, gk := c.g } p ρ
+
+/-- JWL: the traced `sie(p, ρ, γ)` inverts the JWL pressure form -/
+theorem jwl_sie_inverts (c : Jwl) (hc : c.Regular) (p ρ : ℝ) (hρ : ρ ≠ 0) :
+    jwlPressure c.A c.B c.R1 c.R2 c.r0 (c.g - 1) ρ (jwlSie c p ρ) = p := by
+  obtain ⟨h1, h2, h3⟩ := hc
+  have hR1 : c.R1 ≠ 0 := left_ne_zero_of_mul h1
+  have hR2 : c.R2 ≠ 0 := left_ne_zero_of_mul h2
+  have hr0 : c.r0 ≠ 0 := right_ne_zero_of_mul h1
+  simp only [jwlPressure, jwlSie, epv_tree, epv_leaf]
+  field_simp
+  ring
+
+/-- JWL: `JWL_dfdr` is the derivative of `JWL_f` with respect to the density (generated certificate) -/
+theorem jwl_dfdr (c : Jwl) (hc : c.Regular) (ρ : ℝ) (hρ : ρ ≠ 0) :
+    HasDerivAt (fun r => jwlF c r) (jwlDf c ρ) ρ := by
+  obtain ⟨h1, h2, h3⟩ := hc
+  have k1 : c.R1 * c.r0 / ρ ≠ 0 := div_ne_zero h1 hρ
+  have k2 : c.R2 * c.r0 / ρ ≠ 0 := div_ne_zero h2 hρ
+  have hR1 : c.R1 ≠ 0 := left_ne_zero_of_mul h1
+  have hR2 : c.R2 ≠ 0 := left_ne_zero_of_mul h2
+  have hr0 : c.r0 ≠ 0 := right_ne_zero_of_mul h1
+  have cert := RiemJwlFun.L0.f_hasDerivAt_rho
+    { A := c.A, B := c.B, R1 := c.R1, R2 := c.R2, r0 := c.r0, gk := c.g } ρ hρ k1 k2
+  have e : (fun r => jwlF c r)
+      = fun r => RiemJwlFun.L0.f { A := c.A, B := c.B, R1 := c.R1, R2 := c.R2, r0 := c.r0, gk := c.g } r := by
+    funext r; simp only [jwlF, epv_tree]
+  rw [e]
+  refine cert.congr_deriv ?_
+  simp only [jwlDf, epv_tree, epv_leaf, epv_deriv]
+  field_simp
+  ring
+
+theorem jwlF_leaves : RiemJwlFun.okLeaves = [0] ∧ RiemSieJWL.okLeaves = [0] := ⟨rfl, rfl⟩
+
+/-- JWL: `dsdr_cP` is ∂e/∂ρ at constant p of the traced `sie` -/
+theorem jwl_dsdr (c : Jwl) (hc : c.Regular) (p ρ : ℝ) (hρ : ρ ≠ 0) :
+    HasDerivAt (fun r => jwlSie c p r)
+      (RiemDsdrJWL.d { A := c.A, B := c.B, R1 := c.R1, R2 := c.R2, r0 := c.r0, gk := c.g, pk := p, rho := ρ }) ρ := by
+  obtain ⟨h1, h2, h3⟩ := hc
+  have k1 : c.R1 * c.r0 / ρ ≠ 0 := div_ne_zero h1 hρ
+  have k2 : c.R2 * c.r0 / ρ ≠ 0 := div_ne_zero h2 hρ
+  have hR1 : c.R1 ≠ 0 := left_ne_zero_of_mul h1
+  have hR2 : c.R2 ≠ 0 := left_ne_zero_of_mul h2
+  have hr0 : c.r0 ≠ 0 := right_ne_zero_of_mul h1
+  have cert := RiemSieJWL.L0.e_hasDerivAt_rho
+    { A := c.A, B := c.B, R1 := c.R1, R2 := c.R2, r0 := c.r0, gk := c.g } p ρ hρ k1 k2
+  have e : (fun r => jwlSie c p r)
+      = fun r => RiemSieJWL.L0.e { A := c.A, B := c.B, R1 := c.R1, R2 := c.R2, r0 := c.r0, gk := c.g } p r := by
+    funext r; simp only [jwlSie, epv_tree]
+  rw [e]
+  refine cert.congr_deriv ?_
+  simp only [epv_tree, epv_leaf, epv_deriv]
+  field_simp
+  ring
+
+/-- JWL: `dsdp_cR` is ∂e/∂p at constant ρ of the traced `sie` -/
+theorem jwl_dsdp (c : Jwl) (p ρ : ℝ) :
+    HasDerivAt (fun x => jwlSie c x ρ) (RiemDsdpJWL.d { gk := c.g, rho := ρ }) p := by
+  have cert := RiemSieJWL.L0.e_hasDerivAt_pk
+    { A := c.A, B := c.B, R1 := c.R1, R2 := c.R2, r0 := c.r0, gk := c.g } p ρ
+  have e : (fun x => jwlSie c x ρ)
+      = fun x => RiemSieJWL.L0.e { A := c.A, B := c.B, R1 := c.R1, R2 := c.R2, r0 := c.r0, gk := c.g } x ρ := by
+    funext r; simp only [jwlSie, epv_tree]
+  rw [e]
+  refine cert.congr_deriv ?_
+  simp only [epv_tree, epv_leaf, epv_deriv]
+  ring
+
+/-- JWL: `sound_speed² = (p/ρ² - ∂e/∂ρ|ₚ) / ∂e/∂p|ᵨ` with the derivatives of the traced `sie`
+(wherever the radicand is non-negative, i.e. the sound speed is real) -/
+theorem jwl_sound_sq (c : Jwl) (hc : c.Regular) (p ρ : ℝ) (hρ : ρ ≠ 0)
+    (hrad : 0 ≤ cSqGeneral p ρ (deriv (fun r => jwlSie c p r) ρ) (deriv (fun x => jwlSie c x ρ) p)) :
+    RiemSoundJWL.a { A := c.A, B := c.B, R1 := c.R1, R2 := c.R2, r0 := c.r0, gk := c.g, pk := p, rho := ρ } ^ 2
+      = cSqGeneral p ρ (deriv (fun r => jwlSie c p r) ρ) (deriv (fun x => jwlSie c x ρ) p) := by
+  rw [(jwl_dsdr c hc p ρ hρ).deriv, (jwl_dsdp c p ρ).deriv] at hrad ⊢
+  have e : RiemSoundJWL.a { A := c.A, B := c.B, R1 := c.R1, R2 := c.R2, r0 := c.r0, gk := c.g, pk := p, rho := ρ }
+      = Real.sqrt (cSqGeneral p ρ
+          (RiemDsdrJWL.d { A := c.A, B := c.B, R1 := c.R1, R2 := c.R2, r0 := c.r0, gk := c.g, pk := p, rho := ρ })
+          (RiemDsdpJWL.d { gk := c.g, rho := ρ })) := by
+    simp only [cSqGeneral, epv_tree, epv_leaf]
+  rw [e, Real.sq_sqrt hrad]
+
+/-- non-vacuity: the constants of the Lee JWL shock tube (`examples/riemann.py`) are regular -/
+example : (⟨632.1, -0.04472, 11.3, 1.13, 1.905, 1.8938⟩ : Jwl).Regular := by
+  unfold Jwl.Regular; norm_num
 
 end EPV.C03
